@@ -55,10 +55,13 @@ func init() {
 // ---------------------------------------------------------------------------- universe
 
 // c11Key is a key or value record of the spec: int n | float n = twice the value (z: negative zero) |
-// bool n | nil | str s (bytes) | arr e (elements).
+// bool n | nil | str s (bytes) | arr e (elements). b places a number at an end of the int64 range (the model's integers
+// are small): b = 1: the int MaxInt64 + n (n <= 0), the float 2^63 (n = 2, twice the distance from MaxInt64);
+// b = -1: the int MinInt64 + n (n >= 0), the float -2^63 (n = 0). Numbers are ordered by (b, twice the value).
 type c11Key struct {
 	T   string   `json:"t"`
 	N   int      `json:"n"`
+	B   int      `json:"b"`
 	Z   int      `json:"z"`
 	S   []int    `json:"s"`
 	E   []c11Key `json:"e"`
@@ -68,11 +71,15 @@ type c11Key struct {
 func (k c11Key) toJSON() map[string]any {
 	r := map[string]any{"t": k.T, "txt": k.Txt}
 	switch k.T {
-	case "int", "bool":
+	case "bool":
 		r["n"] = k.N
+	case "int":
+		r["n"] = k.N
+		r["b"] = k.B
 	case "float":
 		r["n"] = k.N
 		r["z"] = k.Z
+		r["b"] = k.B
 	case "str":
 		s := k.S
 		if s == nil {
@@ -92,8 +99,23 @@ func (k c11Key) toJSON() map[string]any {
 func (k c11Key) obj() (object.Object, error) {
 	switch k.T {
 	case "int":
+		switch k.B {
+		case 1:
+			return object.Integer{Value: math.MaxInt64 + int64(k.N)}, nil
+		case -1:
+			return object.Integer{Value: math.MinInt64 + int64(k.N)}, nil
+		}
 		return object.Integer{Value: int64(k.N)}, nil
 	case "float":
+		if k.B == 1 && k.N == 2 {
+			return object.Float{Value: 9223372036854775808.0}, nil
+		}
+		if k.B == -1 && k.N == 0 {
+			return object.Float{Value: -9223372036854775808.0}, nil
+		}
+		if k.B != 0 {
+			return nil, fmt.Errorf("no float64 at b=%d n=%d", k.B, k.N)
+		}
 		if k.Z == 1 {
 			return object.Float{Value: math.Copysign(0, -1)}, nil
 		}
@@ -125,8 +147,17 @@ func (k c11Key) obj() (object.Object, error) {
 func (k c11Key) src() string {
 	switch k.T {
 	case "int":
+		if o, err := k.obj(); err == nil {
+			return strconv.FormatInt(o.(object.Integer).Value, 10)
+		}
 		return strconv.Itoa(k.N)
 	case "float":
+		if k.B == 1 {
+			return "9223372036854775808.0"
+		}
+		if k.B == -1 {
+			return "-9223372036854775808.0"
+		}
 		if k.Z == 1 {
 			return "-0.0"
 		}
@@ -978,7 +1009,9 @@ func c11TVUniverse() *c11Univ {
 	T, Fa, N := c11Key{T: "bool", N: 1}, c11Key{T: "bool", N: 0}, c11Key{T: "nil"}
 	u := &c11Univ{
 		Keys: []c11Key{
-			I(-3), I(-1), I(0), I(1), I(2), I(3), I(7), I(100),
+			{T: "int", B: -1, N: 0}, {T: "int", B: -1, N: 1}, {T: "float", B: -1, N: 0}, // MinInt64, MinInt64+1, -2^63 as a float (= MinInt64)
+			I(-100), I(-3), I(-2), I(-1), I(0), I(1), I(2), I(3), I(7), I(100),
+			{T: "int", B: 1, N: -1}, {T: "int", B: 1, N: 0}, {T: "float", B: 1, N: 2}, // MaxInt64-1, MaxInt64, 2^63 as a float (> MaxInt64)
 			F(-3), {T: "float", Z: 1}, F(1), F(2), F(3), F(4), F(5), F(6), F(200), // -1.5 -0.0 0.5 1.0 1.5 2.0 2.5 3.0 100.0
 			Fa, T, N,
 			S(""), S("1"), S("B"), S("a"), S("ab"), S("b"),
